@@ -10,9 +10,9 @@ Sizes == {0, 1, 25599, 25600, 25601, 51199, 51200, 51201, 76800, 204800, 204801,
 Prices == { R(Zero, One), R(FromSmall(15), One), R(One, FromSmall(3)), R(FromSmall(44), FromSmall(25)),
             R(FromSmall(6), FromSmall(4)), R(One, U64), R(U64, One), R(U64, U64), R(FromSmall(577), FromSmall(10000)) }
 Units == { Zero, One, FromSmall(14000000), Pow2(32), Sub(Pow2(63), One), Pow2(63), U64 }
-Coefs == { Zero, One, FromSmall(44), Pow2(32), U64 }
+Coefs == { Zero, One, FromSmall(44), Pow2(32), Sub(Pow2(33), One), Sub(Pow2(63), One), Pow2(63), U64 }
 Consts == { Zero, FromSmall(155381), U64 }
-LSizes == { Zero, One, FromSmall(16384), Sub(Pow2(32), One) }
+LSizes == { Zero, One, FromSmall(2), FromSmall(3), FromSmall(16384), Pow2(31), Sub(Pow2(32), One) }
 \* sizes far beyond the 200 KiB ledger cap (the quantifier runs to 2^32): decided by the zero-price and lower-bound rules
 BigSizes == {FromSmall(6246399), FromSmall(6246400), FromSmall(25600*457+1), FromSmall(2147483647), Sub(Pow2(32), One)}
 BigPrices == {R(Zero, One), R(Zero, U64), R(FromSmall(577), FromSmall(10000)), R(One, U64)}
